@@ -552,6 +552,8 @@ def run_cases(report, fn, cases, nproc=None, time_budget=None):
     import tempfile
     nproc = nproc or NPROC
     cases = list(cases)
+    if os.environ.get('VERIF_ONLY'):        # development aid: only the cases whose label contains the text (never set by a registered command)
+        cases = [c for c in cases if os.environ['VERIF_ONLY'] in case_label(c)]
     t0 = time.time()
     if nproc <= 1 or len(cases) <= 1:
         for c in cases:
